@@ -389,12 +389,14 @@ func (s *Store) instantiate(
 	// After engine creation, we can create the funcref element instances and initialize funcref type globals.
 	m.buildElementInstances(module.ElementSection)
 
-	// Now all the validation passes, we are safe to mutate memory instances (possibly imported ones).
+	// Now all the validation passes, we are safe to mutate table and memory instances (possibly imported ones).
+	// Active element segments are applied before active data segments, as the specification orders them: when a
+	// data segment is out of bounds, the element segments have already been written.
+	m.applyElements(module.ElementSection)
+
 	if err = m.applyData(module.DataSection); err != nil {
 		return nil, err
 	}
-
-	m.applyElements(module.ElementSection)
 
 	m.Engine.DoneInstantiation()
 
